@@ -130,4 +130,51 @@ example : lockOrder ≠ [] := by decide
 example : Walk lockOrder "FBDNSDB.reloadMu" "IteratorPool.l" :=
   .cons (b := "DB.l") (by decide) (.edge (by decide))
 
+/-! ### A reader-writer lock and a channel: the three-party wait
+
+`sync.RWMutex` prefers writers: once a `Lock()` is pending, later `RLock()` calls queue behind it.
+So a goroutine `G` that holds `L` (in either mode) while it waits to RECEIVE on channel `c`, a writer
+`W` waiting for `L`, and a goroutine `P` that must take `L` SHARED before it SENDS on `c` wait for
+each other for ever (G for P's send, P for W, W for G) - no lock-order edge shows it, the race
+detector is silent. The iterator pool is built so that it cannot happen: `put()` sends without the
+lock. The condition below is what that rests on, checked against the channel operations extracted
+from the current source (`Generated.LockFacts.chanOps`: field, function, send|recv, locks held). It
+is a syntactic condition on the table, not a proof of deadlock freedom of the Go runtime. -/
+
+abbrev ChanOp := String × String × String × List (String × Bool) × String
+
+/-- the pattern: a receive on `c` under lock `L` (any mode) and a send on `c` under `L` held shared -/
+def ThreeParty (ops : List ChanOp) : Prop :=
+  ∃ r ∈ ops, ∃ s ∈ ops, r.2.2.1 = "recv" ∧ s.2.2.1 = "send" ∧ r.1 = s.1 ∧
+    ∃ l, (∃ m, (l, m) ∈ r.2.2.2.1) ∧ (l, false) ∈ s.2.2.2.1
+
+def threePartyB (ops : List ChanOp) : Bool :=
+  ops.any fun r => ops.any fun s => r.2.2.1 == "recv" && s.2.2.1 == "send" && r.1 == s.1 &&
+    r.2.2.2.1.any fun lm => s.2.2.2.1.contains (lm.1, false)
+
+theorem threeParty_iff (ops : List ChanOp) : ThreeParty ops ↔ threePartyB ops = true := by
+  unfold ThreeParty threePartyB
+  simp only [List.any_eq_true, Bool.and_eq_true, beq_iff_eq, List.contains_eq_mem, decide_eq_true_eq]
+  constructor
+  · rintro ⟨r, hr, s, hs, h1, h2, h3, l, ⟨m, hm⟩, hl⟩
+    exact ⟨r, hr, s, hs, ⟨⟨⟨h1, h2⟩, h3⟩, (l, m), hm, hl⟩⟩
+  · rintro ⟨r, hr, s, hs, ⟨⟨⟨h1, h2⟩, h3⟩, lm, hm, hl⟩⟩
+    exact ⟨r, hr, s, hs, h1, h2, h3, lm.1, ⟨lm.2, hm⟩, hl⟩
+
+/-- no channel of the table is received from under a lock that one of its senders takes shared -/
+theorem no_three_party_wait : ¬ ThreeParty chanOps := by
+  rw [threeParty_iff]; decide +kernel
+
+/-- not vacuous: the table has a receive under a lock and a send, on one channel -/
+example : ∃ r ∈ chanOps, ∃ s ∈ chanOps, r.2.2.1 = "recv" ∧ s.2.2.1 = "send" ∧ r.1 = s.1 ∧ r.2.2.2.1 ≠ [] := by
+  decide +kernel
+
+/-- the table of a pool whose `put()` sends under `RLock` (a seeded change) has the pattern -/
+example : ThreeParty
+    [("IteratorPool.iterators", "IteratorPool.get", "recv", [("IteratorPool.l", false)], ""),
+     ("IteratorPool.iterators", "IteratorPool.put", "send", [("IteratorPool.l", false)], ""),
+     ("IteratorPool.iterators", "IteratorPool.disable", "recv", [], ""),
+     ("IteratorPool.iterators", "IteratorPool.enable", "send", [("IteratorPool.l", true)], "")] := by
+  rw [threeParty_iff]; decide +kernel
+
 end DnsVerif.Props.C14
